@@ -1,0 +1,42 @@
+// Copyright © 2022-2026 Obol Labs Inc. Licensed under the terms of a Business Source License 1.1
+
+//go:build verif
+
+package scheduler
+
+import "slices"
+
+// This file exposes read-only views of the head-event bookkeeping to the external verification
+// harness. It adds no behaviour.
+
+// EventTriggeredVerif returns the keys of eventTriggeredAttestations in ascending order.
+func (s *Scheduler) EventTriggeredVerif() []uint64 {
+	var resp []uint64
+
+	s.eventTriggeredAttestations.Range(func(key, _ any) bool {
+		if slot, ok := key.(uint64); ok {
+			resp = append(resp, slot)
+		}
+
+		return true
+	})
+
+	slices.Sort(resp)
+
+	return resp
+}
+
+// EpochResolvedWaitersVerif returns the epochs that have a notification channel in epochResolved, in ascending order.
+func (s *Scheduler) EpochResolvedWaitersVerif() []uint64 {
+	s.dutiesMutex.RLock()
+	defer s.dutiesMutex.RUnlock()
+
+	resp := make([]uint64, 0, len(s.epochResolved))
+	for epoch := range s.epochResolved {
+		resp = append(resp, epoch)
+	}
+
+	slices.Sort(resp)
+
+	return resp
+}
